@@ -19,6 +19,7 @@ fn fail(out: &mut Vec<Finding>, oracle: &str, s: &Entry, l: &Entry, ver: u32, va
                 ("saved_features", s.ty.feature_string()),
                 ("loaded_features", l.ty.feature_string()),
                 ("claim", what.to_string()),
+                ("failure_kind", if msg.contains("<recursion") { "recursion_marker_in_schema".to_string() } else { "other".to_string() }),
             ]),
             summary: format!("saved {} [{}] loaded as {} [{}] v{}: {}", s.ty.describe(), s.id(), l.ty.describe(), l.id(), ver, msg),
             case: json!({"kind": "gate_pair", "saved_family": s.family, "saved_type": s.ty.rust(), "loaded_family": l.family, "loaded_type": l.ty.rust(),
